@@ -130,7 +130,8 @@ def run_case(case, ctx):
         ctx.check('maximal', res[0] == t0 and not inside(step_fn(bump)(res[-1])), lambda: 'starts at %s (t0=%s); one more step from %s stays inside' % (res[0], t0, res[-1]))
     if kind in ('int', 'nd'):
         n = bump if kind == 'int' else int(bump[:-1])
-        a = ctx.call(drange, t0, t1, n)
+        import numpy as np
+        a = ctx.call(drange, t0, t1, n if (n + t0.day) % 3 else np.int64(n))       # now and then the count is a numpy integer
         b = ctx.call(drange, t0, t1, datetime.timedelta(n))
         c = ctx.call(drange, t0, t1, '%dd' % n)
         ok = a[0] == b[0] == c[0] == 'ok' and list(a[1]) == list(b[1]) == list(c[1])
